@@ -54,7 +54,7 @@ def enc(v) -> Any:
     """Python JSON value -> model Val (arrays stay arrays, scalars become their JSON text)."""
     if isinstance(v, (list, tuple)):
         return [enc(x) for x in v]
-    return json.dumps(v)
+    return json.dumps(v, default=repr)          # non-JSON scalars (bytes, sets, complex ...) are shown by their repr
 
 
 def model_node(spec: dict) -> dict:
